@@ -50,7 +50,6 @@ _table_lemma._mod = __name__
 W.lemmas = getattr(W, 'lemmas', []) + [('C10', 'table', _table_lemma)]
 W.declare_global('ghost.background', SetOf(ATOM))          # background steps started by this call (deferToThread)
 W.declare_global('ghost.triggers_fired', ListOf(ATOM))     # triggers fired by this call, in order
-W.declare_global('dawgie.pl.farm.ARCHIVE', BOOL)
 TRIGLOG = ListOf(ATOM)
 
 
@@ -250,10 +249,10 @@ def _dyn_getattr(ex, obj, name, e):
             raise Unsupported('prior state other than running/updating')
         call._pyvc_builtin = True
         return call
-    raise Unsupported('getattr with a computed name')
+    return None
 
 
-W.dyn_getattr = _dyn_getattr
+W.dyn_getattr_hooks.append(_dyn_getattr)
 
 
 @contract(W, 'dawgie/pl/state.py', 'FSM.load', props=['C10', 'C11'])
